@@ -186,6 +186,34 @@ CHECKS["C20"] = dict(
     design="DESIGN.md section 3 / C20",
 )
 
+CHECKS["C07"] = dict(
+    technique="CFG dominance / never-after queries on the pipeline (rounding is the last writer of numbers, clean-ups after the last deleter), structural check that clipPath subtrees are deleted inside the leaves-first walk, symbolic interpretation of decompose_translation on translation-free matrices, who-may-allocate table for generated ids, effect lint of the gate",
+    text="Byte equality of two conversions is not decidable statically (float formatting, Skia). Decided necessary conditions for a fixed point: "
+         "nothing deletes shapes after the last pruning/orphan removal (violated today: known finding F5), nothing produces numbers after "
+         "round_floats and every number is rounded, clipPath subtrees disappear before parent-group and orphan decisions, re-normalising a "
+         "normalised gradient is a no-op, ids are only generated for constructs a converted document no longer has, and the gate is pure.",
+    note="Not applicable to this family: numeric stability of rounding under re-parse, Skia determinism on its own output. Known finding F5 listed.",
+    design="DESIGN.md section 3 / C07",
+)
+CHECKS["C08"] = dict(
+    technique="sibling analysis of element-copy sites (id strip over root and descendants before attachment), statement-order checks allocate-then-attach incl. laziness of the swap consumer, structural completeness of the used-gradient scan, who-may-delete table, pipeline order query for orphan removal",
+    text="Uniqueness, non-dangling and non-orphan references reduce to site rules: every copy inserted into the same tree strips ids from the whole "
+         "copied subtree first, splits clear ids, every generated id comes from a whole-tree lowest-free search and is attached before the next "
+         "allocation (lazily consumed swaps), gradients are deleted only when no shape of the whole document uses them, fills are rewritten to "
+         "the element just added, and no shape is deleted after the last orphan removal (violated today: known finding F5).",
+    note="Premise as in the property: every reference in the source resolves. Observations (exception at the gate, not violations) are listed in the evidence assumptions.",
+    design="DESIGN.md section 3 / C08",
+)
+CHECKS["C14"] = dict(
+    technique="CFG dominance queries (junk removers dominate every interpreting stage), parser-flag site check, live-iterator deletion lint, structural checks of the removers and of the redundant-node filters at counting/indexing sites",
+    text="A relation between two conversions is not observable statically; decided is that ignorable nodes are dropped at parse time or removed "
+         "before any stage that interprets, counts or instantiates elements (by dominance on every path), that removers select complete target "
+         "sets with materialised queries and never delete during a live document walk, and that every counting/indexing child iteration "
+         "filters comments and processing instructions.",
+    note="Not applicable: equality of convert(N(D)) and convert(D) as documents (needs two runs).",
+    design="DESIGN.md section 3 / C14",
+)
+
 NOT_APPLICABLE = {}
 
 
